@@ -46,7 +46,9 @@ func c09IPs() []netip.Addr {
 }
 
 // c09Frame builds one frame of the traffic mix.
-func c09Frame(r *rand.Rand, e gen.Env) []byte {
+func c09Frame(r *rand.Rand, e gen.Env) []byte { return c09FrameD(r, e, nil) }
+
+func c09FrameD(r *rand.Rand, e gen.Env, dh *c09DHCP) []byte {
 	mac := c09MACs[r.Intn(len(c09MACs))]
 	ips := c09IPs()
 	switch k := r.Intn(20); {
@@ -57,6 +59,9 @@ func c09Frame(r *rand.Rand, e gen.Env) []byte {
 	case k < 12:
 		return buildFrame("f6", mac, ips[6+r.Intn(6)])
 	case k < 14:
+		if dh != nil && r.Intn(3) != 0 {
+			return dh.frame(r, e, mac)
+		}
 		kind := []string{"discover", "request-selecting", "request-reboot", "request-renew", "offer", "decline", "release", "request-selecting"}[r.Intn(8)]
 		m := gen.DHCP(r, e, kind, mac)
 		sp, dp := uint16(68), uint16(67)
@@ -90,7 +95,78 @@ type regEvent struct {
 	proc  int
 }
 
+// c09DHCP is the harness side DHCP client state of the stress run: real handshakes (DISCOVER -> OFFER -> REQUEST -> ACK)
+// so that leases exist, followed by renewals, DECLINEs and RELEASEs of exactly those leases.
+type c09DHCP struct {
+	mu     sync.Mutex
+	xid    map[refdec.MAC][4]byte
+	acked  map[refdec.MAC]netip.Addr
+	follow chan []byte
+	nAck   int64
+}
+
+func (d *c09DHCP) frame(r *rand.Rand, e gen.Env, mac refdec.MAC) []byte {
+	d.mu.Lock()
+	defer d.mu.Unlock()
+	m := refdec.DHCPMsg{Op: 1, HType: 1, HLen: 6}
+	copy(m.CHAddr[:], mac[:])
+	src, dst := ip4zero, netip.MustParseAddr("255.255.255.255")
+	a, has := d.acked[mac]
+	switch k := r.Intn(6); {
+	case has && k == 0: // renew
+		m.XID = [4]byte{mac[1], byte(r.Intn(256)), 3, 1}
+		m.CI, src, dst = a, a, e.HostIP
+		m.Options = []refdec.DHCPOpt{{Code: 53, Data: []byte{3}}}
+	case has && k == 1: // decline
+		m.XID = d.xid[mac]
+		m.Options = []refdec.DHCPOpt{{Code: 53, Data: []byte{4}}, {Code: 54, Data: ip4b(e.HostIP)}, {Code: 50, Data: ip4b(a)}}
+		delete(d.acked, mac)
+	case has && k == 2: // release
+		m.XID = d.xid[mac]
+		m.CI, src, dst = a, a, e.HostIP
+		m.Options = []refdec.DHCPOpt{{Code: 53, Data: []byte{7}}, {Code: 54, Data: ip4b(e.HostIP)}}
+		delete(d.acked, mac)
+	default: // discover
+		x := [4]byte{mac[1], byte(r.Intn(256)), byte(r.Intn(256)), 0x09}
+		d.xid[mac] = x
+		m.XID = x
+		m.Options = []refdec.DHCPOpt{{Code: 53, Data: []byte{1}}, {Code: 12, Data: []byte("c09")}}
+	}
+	return dhcpFrame(mac, src, dst, m, 68, 67, bcastMAC)
+}
+
+// observe looks at a frame the stack sent: an OFFER is answered with the matching selecting REQUEST, an ACK is remembered.
+func (d *c09DHCP) observe(e gen.Env, f []byte) {
+	dec := refdec.Decode(f)
+	if dec.Err || dec.OffUDP == 0 || dec.DstPort != 68 {
+		return
+	}
+	rp, err := refdec.ParseDHCP(f[dec.OffUDP+8:])
+	if err != nil || rp.Op != 2 {
+		return
+	}
+	mac := rp.CHMAC()
+	d.mu.Lock()
+	defer d.mu.Unlock()
+	switch rp.Type() {
+	case refdec.DHCPOffer:
+		q := refdec.DHCPMsg{Op: 1, HType: 1, HLen: 6, XID: rp.XID}
+		copy(q.CHAddr[:], mac[:])
+		q.Options = []refdec.DHCPOpt{{Code: 53, Data: []byte{3}}, {Code: 54, Data: ip4b(e.HostIP)}, {Code: 50, Data: ip4b(rp.YI)}}
+		select {
+		case d.follow <- dhcpFrame(mac, ip4zero, netip.MustParseAddr("255.255.255.255"), q, 68, 67, bcastMAC):
+		default:
+		}
+	case refdec.DHCPAck:
+		d.acked[mac] = rp.YI
+		d.nAck++
+	case refdec.DHCPNak:
+		delete(d.acked, mac)
+	}
+}
+
 type c09Run struct {
+	dh      *c09DHCP
 	c       *wk.Ctx
 	idx     int64
 	r       *rand.Rand
@@ -349,6 +425,7 @@ func (cr *c09Run) run() {
 	defer runtime.GOMAXPROCS(old)
 	e := gen.DefaultEnv()
 	cr.st = newStack(scratch, mon.DefaultNIC())
+	cr.dh = &c09DHCP{xid: map[refdec.MAC][4]byte{}, acked: map[refdec.MAC]netip.Addr{}, follow: make(chan []byte, 64)}
 	st := cr.st
 	s := st.s
 	points := []string{"findOrCreate:upgrade", "purge:before-offline", "purge:before-delete", "notify:before-offline", "Notify:before-lookup", "Close:between", "arp:spoofLoop:before-send", "icmp6:spoofLoop:before-send"}
@@ -400,7 +477,9 @@ func (cr *c09Run) run() {
 				s.Notify(frame)
 				handled.Add(1)
 			})
-			st.rec.Take()
+			for _, f := range st.rec.Take() {
+				cr.dh.observe(e, f.Data)
+			}
 		}
 	}()
 	// feeder
@@ -410,7 +489,13 @@ func (cr *c09Run) run() {
 		defer wg.Done()
 		fr := rand.New(rand.NewSource(feedSeed))
 		for i := 0; i < nFrames && !cr.stop.Load(); i++ {
-			if !st.rec.FeedWait(c09Frame(fr, e)) {
+			var b []byte
+			select {
+			case b = <-cr.dh.follow:
+			default:
+				b = c09FrameD(fr, e, cr.dh)
+			}
+			if !st.rec.FeedWait(b) {
 				return
 			}
 		}
@@ -511,6 +596,9 @@ func (cr *c09Run) run() {
 	c.Obs("purges", purges.Load())
 	c.Obs("notifications_drained", drained.Load())
 	c.Obs("harness_ops", cr.prog.Load())
+	cr.dh.mu.Lock()
+	c.Obs("dhcp_leases_acknowledged_in_stress", cr.dh.nAck)
+	cr.dh.mu.Unlock()
 	c.Obs("goroutines_before_close", int64(before))
 	c.Obs("goroutines_after_close", int64(runtime.NumGoroutine()))
 	overl := 0
